@@ -913,7 +913,7 @@ func decorateAnyTypes(t *kernel.Tape, p *Plan, pct int, allowFanIn bool) int {
 			}
 		case KSub:
 			n += decorateAnyTypes(t, nd.Sub, pct, allowFanIn)
-			if !nd.Sub.fieldMapped2End() && (nd.Sub.Mode != ModeWorkflow || nd.Sub.dataInDegree("end") >= 1) && t.PlanBool(pct) && (allowFanIn || (!p.feedsFanIn(nd.Key, 0) && nd.Sub.dataInDegree("end") <= 1)) && !p.fieldMapped(nd.Key) {
+			if !nd.Sub.fieldMapped2End() && (nd.Sub.Mode != ModeWorkflow || (nd.Sub.dataInDegree("end") >= 1 && len(nd.Sub.Branches) == 0)) && t.PlanBool(pct) && (allowFanIn || (!p.feedsFanIn(nd.Key, 0) && nd.Sub.dataInDegree("end") <= 1)) && !p.fieldMapped(nd.Key) {
 				nd.AnyOut, nd.Sub.AnyOut = true, true
 				nd.Post = HNone
 				n++
